@@ -213,6 +213,9 @@ def shards(tier):
     out.append(dict(kind="fasta", masks=[m for m in masks if m % 16 == 5][:60], tier=tier))
     # every pair of entries of the option universe of vf.pairwise (other parameter values, filters and outputs next to the
     # modifications): what is written must be the read after the documented steps
+    # renaming: every non-empty subset of the template variables (single-end: all 8; paired-end: 8 incl. {rn}, {r1.x}, {r2.x})
+    for part in range(8):
+        out.append(dict(kind="rename", part=part, parts=8, tier=tier, masks=[]))
     npw = pairwise.count()
     for part in range(16):
         out.append(dict(kind="pairwise", idx=list(range(part, npw, 16)), tier=tier, masks=[]))
@@ -227,6 +230,58 @@ def orders_for(names, tier):
         return [list(p) for p in itertools.permutations(names)]
     rot = names[len(names) // 2:] + names[: len(names) // 2]
     return [list(names), list(reversed(names)), rot]
+
+
+SE_VARS = ["id", "comment", "header", "cut_prefix", "cut_suffix", "adapter_name", "rc", "match_sequence"]
+PE_VARS = ["id", "comment", "rn", "adapter_name", "cut_suffix", "r1.comment", "r2.adapter_name", "r2.cut_prefix"]
+
+
+def run_rename_shard(d, res):
+    V = res["viol"]
+    recs, _ = build_corpus()
+    recs2 = mates_of(recs)
+    wd = clih.fresh_dir("c10rn")
+    inp, inp2 = os.path.join(wd, "in.fq"), os.path.join(wd, "in2.fq")
+    clih.write_text(inp, clih.fastq_text(recs))
+    clih.write_text(inp2, clih.fastq_text(recs2))
+    out1, out2 = os.path.join(wd, "o1.fq"), os.path.join(wd, "o2.fq")
+    jobs = [(False, m) for m in range(1, 256)] + [(True, m) for m in range(1, 256)]
+    for paired, mask in jobs[d["part"]:: d["parts"]]:
+        names = [v for i, v in enumerate(PE_VARS if paired else SE_VARS) if mask >> i & 1]
+        template = "|".join("{%s}" % v for v in names)
+        if paired:
+            # both mates must keep the same ID (cutadapt rejects the template otherwise): the ID first, the subset as comment
+            if not mask & 1:
+                continue
+            template = "{id} " + "|".join("{%s}" % v for v in names[1:])
+        opts = dict(cut=[2, -1], adapters=[("-a", "ad=CA")], rename=template)
+        if paired:
+            opts.update(cut2=[1], adapters2=[("-A", "bd=AG")])
+        a1, a2 = make_adapters(opts)
+        model = refpipe.Model(opts, a1, a2, paired=paired)
+        p1 = [model.process(n, s_, q, 0) for n, s_, q in recs]
+        p2 = [model.process(n, s_, q, 1) for n, s_, q in recs2] if paired else None
+        if paired:
+            for a, b in zip(p1, p2):
+                a.name, b.name = pair_rename(template, a, b)
+        argv = refpipe.argv_from(opts)
+        r = clih.run_cli(argv + (["-o", out1, "-p", out2, inp, inp2] if paired else ["-o", out1, inp]))
+        res["runs"] += 1
+        res["evals"] += len(recs) * (2 if paired else 1)
+        res["nontrivial"] += len(recs)
+        case = dict(options=["cut", "adapter", "rename"], template=template, argv=argv, paired=paired, input="fastq")
+        if r.exit != 0:
+            V.append(("rename-failed", f"cutadapt failed on a template of documented variables: exit={r.exit} {r.exc} {r.errors()[:1]}", case))
+            continue
+        for mate, exp, path, inrecs in ((1, p1, out1, recs), (2, p2, out2, recs2)):
+            if exp is None:
+                continue
+            bad = _first_diff([x.tup() for x in exp], clih.read_records(path)[1], inrecs)
+            if bad:
+                V.append(("rename", "renamed header differs from the documented meaning of the template variables", dict(case, mate=mate, **bad)))
+                break
+    clih.rmtree(wd)
+    return res
 
 
 _PW = {}
@@ -258,6 +313,8 @@ def run_shard(d):
     V = res["viol"]
     if d["kind"] == "pairwise":
         return run_pairwise_shard(d, res)
+    if d["kind"] == "rename":
+        return run_rename_shard(d, res)
     recs, _ = build_corpus()
     paired = d["kind"] == "pe"
     menu = MENU_PE if paired else MENU_SE
@@ -370,6 +427,7 @@ def run(tier):
     return R.finish(tot.get("evals", 0), tot.get("nontrivial", 0),
                     "operation sequences = every subset of 13 single-end / 14 paired-end read-modifying options x command-line orders (all "
                     "permutations of subsets up to size 3 (thorough 4), else documented/reversed/rotated) x every corpus read; "
+                    "plus every non-empty subset of the --rename template variables (255 single-end templates; 128 paired-end ones, which start with the ID); "
                     "plus every PAIR of entries of a universe of 53 option settings (vf/pairwise.py: other parameter values, filters, outputs) "
                     "on the 300-read routing corpus; non-trivial = the reference changes the read",
                     True, extra=dict(cli_runs=tot.get("runs", 0)))
@@ -380,7 +438,7 @@ def replay(path):
         v = json.load(f)
     print(json.dumps(v, indent=1))
     c = v["case"]
-    if "layout" in c:  # pairwise family: replay by re-running the quick tier
+    if "layout" in c or "template" in c:  # pairwise / rename families: replay by re-running the quick tier
         import sys
         return common.replay_by_rerun(sys.modules[__name__], PROP, path)
     wd = clih.fresh_dir("c10r")
